@@ -142,6 +142,24 @@ impl Quota for FlipQuota {
 }
 
 #[derive(Clone, Debug)]
+/// A termination criterion supplied by the caller: fires once the generation counter reaches `fire_at`.
+struct CallerTermination {
+    fire_at: usize,
+}
+
+impl vrp_core::rosomaxa::termination::Termination for CallerTermination {
+    type Context = RefinementContext;
+    type Objective = vrp_core::models::GoalContext;
+
+    fn is_termination(&self, heuristic_ctx: &mut Self::Context) -> bool {
+        heuristic_ctx.statistics().generation >= self.fire_at
+    }
+
+    fn estimate(&self, heuristic_ctx: &Self::Context) -> Float {
+        (heuristic_ctx.statistics().generation as Float / self.fire_at.max(1) as Float).min(1.)
+    }
+}
+
 pub struct CrashBase {
     pub problem: Value,
     pub matrices: Vec<Value>,
@@ -154,13 +172,16 @@ pub struct CrashBase {
     pub pools: (usize, usize),
     pub init_size: usize,
     pub init_quota: f64,
+    /// an additional termination criterion of the caller (public `with_termination`): 0 none, 1 one which does not fire
+    /// (it gives up only far beyond the generation limit), 2 one which fires at half of the generation limit
+    pub custom_termination: u8,
 }
 
 impl CrashBase {
     pub fn to_json(&self) -> Value {
         json!({ "kind": "crash", "problem": self.problem, "matrices": self.matrices, "spec": self.spec.to_json(),
             "max_generations": self.max_generations, "max_time": self.max_time, "hyper": self.hyper, "cpus": self.cpus,
-            "pools": [self.pools.0, self.pools.1], "init_size": self.init_size, "init_quota": self.init_quota })
+            "pools": [self.pools.0, self.pools.1], "init_size": self.init_size, "init_quota": self.init_quota, "custom_termination": self.custom_termination })
     }
     pub fn from_json(v: &Value) -> Option<Self> {
         Some(CrashBase {
@@ -174,6 +195,7 @@ impl CrashBase {
             pools: (v["pools"][0].as_u64().unwrap_or(0) as usize, v["pools"][1].as_u64().unwrap_or(0) as usize),
             init_size: v.get("init_size")?.as_u64()? as usize,
             init_quota: v.get("init_quota")?.as_f64()?,
+            custom_termination: v.get("custom_termination").and_then(|x| x.as_u64()).unwrap_or(0) as u8,
         })
     }
 }
@@ -258,9 +280,16 @@ pub fn execute(base: &CrashBase, k: u64, stalls: &[(u64, u64)]) -> RunOutcome<Cr
             .set_heuristic(heuristic)
             .prebuild()
             .map(|b| {
-                b.with_max_generations(Some(base.max_generations as usize))
+                let b = b
+                    .with_max_generations(Some(base.max_generations as usize))
                     .with_max_time(base.max_time.map(|t| t as usize))
-                    .with_initial(base.init_size, base.init_quota as Float, create_default_init_operators(problem.clone(), env.clone()))
+                    .with_initial(base.init_size, base.init_quota as Float, create_default_init_operators(problem.clone(), env.clone()));
+                // a criterion of the caller never extends the configured limits
+                match base.custom_termination {
+                    1 => b.with_termination(Box::new(CallerTermination { fire_at: base.max_generations as usize * 10 + 50 })),
+                    2 => b.with_termination(Box::new(CallerTermination { fire_at: (base.max_generations as usize / 2).max(1) })),
+                    _ => b,
+                }
             })
             .and_then(|b| b.build())
             .map(|config| Solver::new(problem.clone(), config))
@@ -335,6 +364,7 @@ pub fn make_base(seed: u64, tier: Tier) -> (CrashBase, gen::problem::Features) {
         pools: *p.pick(&[(0usize, 0usize), (0, 0), (0, 0), (1, 2), (2, 2), (4, 1)]),
         init_size: p.usize(1, 4),
         init_quota: *p.pick(&[0.05, 0.5, 1.0]),
+        custom_termination: *p.pick(&[0u8, 0, 0, 0, 0, 1, 1, 2]),
     };
     (base, g.features)
 }
